@@ -149,6 +149,8 @@ def materialize(interp, name, td, depth=0):
                 ctx.register_input(name + "#len", "const", ln)
                 return PyList([materialize(interp, f"{name}[{i}]", t, depth + 1) for i in range(ln)])
         raise PathInfeasible()
+    if k == "tuple":
+        return tuple(materialize(interp, f"{name}.{i}", t, depth + 1) for i, t in enumerate(td.args))
     if k == "str":
         maxoct = td.args[0]
         s = z3.Const(name, SeqSort)
@@ -162,6 +164,12 @@ def materialize(interp, name, td, depth=0):
         ctx.assume(valid(s))
         c = chars(s)
         ctx.assume(z3.And(c >= 0, c <= n, 4 * c >= n))
+        if len(td.args) > 1 and td.args[1]:
+            # AsciiStrLen: only strings with as many characters as octets; the count is then the length itself
+            ctx.assume(c == n)
+            ctx.register_input(name, "str", s)
+            ctx.trusted.add("str: abstract strings = their UTF-8 octets; valid_utf8 is an uninterpreted predicate")
+            return StrV(BytesV([Blk(s, n, name, True)], "bytes"), ops.mk(n, 0, maxoct, 0))
         ctx.register_input(name, "str", s)
         ctx.trusted.add("str: abstract strings = their UTF-8 octets; valid_utf8 is an uninterpreted predicate")
         return StrV(BytesV([Blk(s, n, name, True)], "bytes"), ops.mk(c, 0, None, 0))
